@@ -141,12 +141,20 @@ func genP(t *rapid.T, label string) exact.P {
 	return exact.P{X: genCoord(t, label+"x"), Y: genCoord(t, label+"y")}
 }
 
+// genScale draws the power of two every lattice ordinate is multiplied by.  All the arithmetic the
+// predicates need stays exact under such a scaling (no overflow or underflow for |s| <= 100), so the
+// answers must not change: an absolute tolerance hidden in a kernel shows at the far scales.
 func genScale(t *rapid.T) int {
-	if rapid.IntRange(0, 2).Draw(t, "scale_m") == 0 {
+	switch rapid.IntRange(0, 5).Draw(t, "scale_m") {
+	case 0:
 		return rapid.IntRange(-10, 10).Draw(t, "scale")
+	case 1:
+		return rapid.SampledFrom(farScales).Draw(t, "farscale")
 	}
 	return 0
 }
+
+var farScales = []int{-100, -60, -40, -30, -24, -20, -16, 16, 20, 30, 40, 60, 100}
 
 // genPointOnLine draws a lattice point on the line through s (possibly outside the segment).
 func genPointOnLine(t *rapid.T, s exact.Seg, label string) exact.P {
@@ -257,18 +265,20 @@ func c19Subs() []fw.Sub {
 	return []fw.Sub{
 		fw.Prop[c19SegPt]{
 			Name:       "segment-point",
-			Exhaustive: "all (segment, point) triples on the 6x6 integer lattice (8x8 in thorough)",
+			Exhaustive: "all (segment, point) triples on the 6x6 integer lattice (8x8 in thorough), at scales 2^0, 2^-30 and 2^40",
 			Enum: func(tier string, yield func(c19SegPt) bool) {
 				n := int64(6)
 				if tier == "thorough" {
 					n = 8
 				}
 				pts := signedLattice(n)
-				for _, a := range pts {
-					for _, b := range pts {
-						for _, p := range pts {
-							if !yield(c19SegPt{S: exact.Seg{A: a, B: b}, P: p}) {
-								return
+				for _, sc := range []int{0, -30, 40} {
+					for _, a := range pts {
+						for _, b := range pts {
+							for _, p := range pts {
+								if !yield(c19SegPt{S: exact.Seg{A: a, B: b}, P: p, Scale: sc}) {
+									return
+								}
 							}
 						}
 					}
@@ -285,7 +295,7 @@ func c19Subs() []fw.Sub {
 		},
 		fw.Prop[c19SegSeg]{
 			Name:       "segment-segment",
-			Exhaustive: "all (segment, segment) pairs on the 6x6 integer lattice (8x8 in thorough)",
+			Exhaustive: "all (segment, segment) pairs on the 6x6 integer lattice (8x8 in thorough) at scale 2^0, and on the 4x4 lattice at scales 2^-30 and 2^40",
 			Enum: func(tier string, yield func(c19SegSeg) bool) {
 				n := int64(6)
 				if tier == "thorough" {
@@ -298,6 +308,21 @@ func c19Subs() []fw.Sub {
 							for _, d := range pts {
 								if !yield(c19SegSeg{S: exact.Seg{A: a, B: b}, T: exact.Seg{A: c, B: d}}) {
 									return
+								}
+							}
+						}
+					}
+				}
+				// the 4x4 sub-lattice again at two far scales
+				small := signedLattice(4)
+				for _, sc := range []int{-30, 40} {
+					for _, a := range small {
+						for _, b := range small {
+							for _, c := range small {
+								for _, d := range small {
+									if !yield(c19SegSeg{S: exact.Seg{A: a, B: b}, T: exact.Seg{A: c, B: d}, Scale: sc}) {
+										return
+									}
 								}
 							}
 						}
